@@ -283,6 +283,86 @@ def check_relative(ctx, case):
     ctx.count('relative_view:%s' % kind)
 
 
+# --------------------------------------------------------------------------- cal stream attributes of an OPENED data set
+
+def check_cal_relative(ctx, case):
+    """case: kind='cal_relative', full = index of the L0 namespace (of the six of a 1-step inherit chain) whose relative
+    namespace <p>calx_ holds a complete set of cal attributes (its own center_freq), empty = index of the one that holds an
+    empty antlist (a cal stream without solutions); optionally typed = [index, index]: `stream_type` 'sdp.cal' in the
+    first and another type in the second.  The data set is opened (metadata only) and the cal stream it registered is
+    observed: virtual sensors present?, channel frequencies of the stream."""
+    from katdal.visdatav4 import VisibilityDataV4
+    full, empty, typed = case['full'], case['empty'], case.get('typed')
+    cal = 'calx'
+
+    def hook(ts, cbid, stream):
+        ts[stream + '_inherit'] = 'base'
+        spaces = ['%s_%s_' % (cbid, stream), '%s_base_' % cbid, cbid + '_', stream + '_', 'base_', '']
+        hook.spaces = spaces
+        for i in ([full] if full is not None else []):
+            q = spaces[i] + cal + '_'
+            ts[q + 'antlist'] = ['m000', 'm001']
+            ts[q + 'pol_ordering'] = ['h', 'v']
+            ts[q + 'center_freq'] = 1e9 + 1e7 * i
+            ts[q + 'n_chans'] = 4
+            ts[q + 'bandwidth'] = 4e6
+        if empty is not None:
+            q = spaces[empty] + cal + '_'
+            ts[q + 'antlist'] = []
+            ts[q + 'center_freq'] = 5e8
+            ts[q + 'n_chans'] = 4
+            ts[q + 'bandwidth'] = 4e6
+            ts[q + 'pol_ordering'] = ['h', 'v']
+        if typed:
+            ts[spaces[typed[0]] + cal + '_stream_type'] = 'sdp.cal'
+            ts[spaces[typed[1]] + cal + '_stream_type'] = 'sdp.other'
+        else:
+            ts[cal + '_stream_type'] = 'sdp.cal'
+        ts[cal + '_decoy'] = 1
+    x = v4.build_v4(T=3, F=4, seed=1, construct=False, telstate_hook=hook, archived_override=['sdp_l0', cal])
+    try:
+        spaces = hook.spaces
+        src = TelstateDataSource(x.view, x.cbid, x.stream, chunk_store=None)
+        d = VisibilityDataV4(src)
+        registered = any(k.startswith('Calibration/Products/l1/') for k in d.sensor.virtual)
+        freqs = d._register_standard_cal_streams({})
+        got = dict(registered=registered, center=float(freqs['l1'][2]) if 'l1' in freqs else None)
+        prefixes = list(x.view.prefixes)
+        # the property: the cal stream's attribute comes from the most specific L0 namespace that defines it
+        is_l1 = True
+        if typed:
+            is_l1 = spaces.index(spaces[typed[0]]) < spaces.index(spaces[typed[1]])
+        holders = sorted(i for i in (full, empty) if i is not None)
+        win = holders[0] if (holders and is_l1) else None
+        exp = dict(registered=win is not None and win == full, center=(1e9 + 1e7 * win) if win is not None and win == full else None)
+        if ctx.model_ok:
+            st = [[codes(k), 0, 0] for k in sorted(x.telstate.keys()) if k.endswith('_antlist') or k.endswith('_stream_type')]
+            mo = ctx.model([[18, [11, [codes(q) for q in prefixes], codes(cal)]]])[0]
+            rel = [''.join(map(chr, q)) for q in mo[0]] if mo else None
+            if prefixes != spaces:
+                ctx.disagree('what=prefix_order;chain_len=2', dict(chain=['sdp_l0', 'base']), prefixes, None,
+                             'namespace order of the opened data set', spec=spaces)
+            m_holder = next((i for i, q in enumerate(rel or []) if q + 'antlist' in x.telstate), None)
+            m_type = next((x.telstate[q + 'stream_type'] for q in (rel or []) if q + 'stream_type' in x.telstate), None)
+            m_win = m_holder if m_type == 'sdp.cal' else None
+            model = dict(registered=m_win is not None and m_win == full,
+                         center=(1e9 + 1e7 * m_win) if m_win is not None and m_win == full else None)
+            if model != exp:
+                ctx.disagree('what=cal_relative_model_vs_spec', case, None, model, 'relative view of the model differs from the rule', spec=exp)
+            if got != model:
+                ctx.disagree('what=cal_relative_tie', case, got, model, 'cal stream of the opened data set differs from model', kind='tie')
+        if got != exp:
+            ctx.disagree('what=cal_relative;symptom=%s' % ('stream_type' if typed else 'registered' if got['registered'] != exp['registered']
+                                                           else 'attributes'), case, got, None,
+                         'attributes of the cal stream are not taken from the most specific L0 namespace that defines them', spec=exp)
+    finally:
+        v4.cleanup(x)
+    ctx.traces_validated += 1
+    ctx.note_case(('cal_relative', repr(case)), nontrivial=full is not None and (empty is not None or bool(typed)),
+                  sample=case)
+    ctx.count('cal_relative:%s' % ('typed' if typed else 'pair' if None not in (full, empty) else 'single'))
+
+
 # --------------------------------------------------------------------------- ids, types, sources
 
 FILE_CB = '1234567890'
@@ -1188,8 +1268,27 @@ def check_align(ctx, arrays=None):
     ctx.count('align')
 
 
+def _model_guard(ctx):
+    """A Model file that does not compile on the tree under test (a translator item it needs failed closed) is left out
+    of the driver: the comparisons with the model are then skipped and the checks go on against the Python statements of
+    the property (the failing-input search)."""
+    if not ctx.model_ok:
+        return
+    try:
+        import json
+        from vh import core
+        lo = os.path.join(core.EXTRACT_DIR, 'left_out_wires.json')
+        left = json.load(open(lo)) if os.path.exists(lo) else {}
+        if any(str(w) in left for w in (18, 181)):
+            ctx.model_ok = False
+            ctx.extra['model'] = 'wires 18 / 181 are missing from the driver: search against the Python statements only'
+    except Exception:
+        pass
+
+
 def run(ctx):
     rng = ctx.rng
+    _model_guard(ctx)
     for f in ctx.findings:
         w = f['witness']
         if 'keys' in w:
@@ -1228,6 +1327,15 @@ def run(ctx):
         kind = rng.choice(['capture', 'capture', 'exclusive', 'flat', 'root'])
         check_relative(ctx, dict(cb=cb, chain=chain, view=kind, name=rng.choice(['cal', 'sdp_l1_flags', chain[0]]),
                                  attr_in=sorted(rng.sample(range(6), rng.randint(0, 3)))))
+    # cal stream attributes of an opened data set: EVERY pair of the six L0 namespaces holds differing values (both ways
+    # round), every single namespace, and the stream type decided by a pair of namespaces
+    for i, j in itertools.permutations(range(6), 2):
+        check_cal_relative(ctx, dict(kind='cal_relative', full=i, empty=j))
+    for i in range(6):
+        check_cal_relative(ctx, dict(kind='cal_relative', full=i, empty=None))
+    for _ in range(ctx.scale(6, 60)):
+        a, b = rng.sample(range(6), 2)
+        check_cal_relative(ctx, dict(kind='cal_relative', full=rng.randrange(6), empty=None, typed=[a, b]))
     for _ in range(ctx.scale(40, 400)):
         check_align(ctx)
     for _ in range(ctx.scale(300, 3000)):
@@ -1256,10 +1364,26 @@ def run(ctx):
     fixed = dict(T=3, F=4, candidates=[dict(name='fl0', T=5, F=4, type='sdp.flags', src=['sdp_l0'])])
     for how, store in (('ctor', 'none'), ('from_url', 'none'), ('katdal.open', 'none'), ('from_url', 'auto')):
         check_open(ctx, fixed, dict(how=how, store=store, upgrade=None, n_ts=None, query={}, dataset=True))
+    # shape compatibility PER AXIS: channel only, baseline only, both, (and a second, compatible, stream after / before the
+    # incompatible one) x metadata-only and with-data openings through every entry point
     for bad in (dict(T=3, F=4, candidates=[dict(name='fl0', T=3, F=6, type='sdp.flags', src=['sdp_l0'])]),
-                dict(T=3, F=4, candidates=[dict(name='fl0', T=3, F=4, B=8, type='sdp.flags', src=['sdp_l0'])])):
-        for how, store in (('ctor', 'none'), ('katdal.open', 'none'), ('katdal.open', 'auto')):
-            check_open(ctx, bad, dict(how=how, store=store, upgrade=None, n_ts=None, query={}, dataset=True))
+                dict(T=3, F=4, candidates=[dict(name='fl0', T=3, F=4, B=8, type='sdp.flags', src=['sdp_l0'])]),
+                dict(T=3, F=4, candidates=[dict(name='fl0', T=4, F=6, B=8, type='sdp.flags', src=['sdp_l0'])]),
+                dict(T=3, F=4, candidates=[dict(name='fl0', T=3, F=4, type='sdp.flags', src=['sdp_l0']),
+                                           dict(name='fl1', T=5, F=4, B=8, type='sdp.flags', src=['other', 'sdp_l0'])]),
+                dict(T=3, F=4, candidates=[dict(name='fl0', T=3, F=4, B=14, type='sdp.flags', src=['sdp_l0']),
+                                           dict(name='fl1', T=3, F=4, type='sdp.flags', src=['sdp_l0'])])):
+        x = build_flag_fixture(bad, ctx.seed)
+        try:
+            st_vals = None
+            for how, store in (('ctor', 'none'), ('ctor', 'given'), ('from_url', 'none'), ('from_url', 'auto'),
+                               ('open_data_source', 'none'), ('open_data_source', 'given'), ('katdal.open', 'none'),
+                               ('katdal.open', 'auto')):
+                st_vals = check_open(ctx, bad, dict(how=how, store=store, upgrade=None, n_ts=None, query={}, dataset=True),
+                                     x=x, st_vals=st_vals)
+                ctx.count('shape_axis:%s' % ('meta' if store == 'none' else 'data'))
+        finally:
+            v4.cleanup(x)
     # the attributes of a flags stream that inherits (as in production) the stream it flags / a helper stream:
     # its type, sources and chunk info each only reachable through the chain
     prod = [dict(T=3, F=4, candidates=[dict(name='fl0', T=5, F=4, type='sdp.flags', src=['sdp_l0'], inherit='sdp_l0')]),
@@ -1281,6 +1405,7 @@ def run(ctx):
 
 
 def replay(ctx, doc):
+    _model_guard(ctx)
     case = doc['case']
     if 'attr_in' in case and 'name' in case:
         check_relative(ctx, case)
@@ -1290,6 +1415,8 @@ def replay(ctx, doc):
         check_placement(ctx, chain, [prefixes.index(p) for p in case['attr_in']], [prefixes.index(p) for p in case['sensor_in']])
     elif 'keys' in case:
         check_sensor_table(ctx, case)
+    elif case.get('kind') == 'cal_relative':
+        check_cal_relative(ctx, case)
     elif case.get('kind') == 'arrays':
         check_arrays(ctx, case)
     elif 'arrays' in case:
